@@ -143,7 +143,13 @@ def pool_kwargs(scn, backend, ctx_factory):
               "http1", "http2", "retries", "uds", "local_address"):
         if k in p:
             kw[k] = p[k]
+    if p.get("socket_options"):
+        kw["socket_options"] = [tuple(o) for o in p["socket_options"]]
     kw["ssl_context"] = ctx_factory("origin")
+    if p.get("ctx_alpn"):
+        # the caller's context arrives with an ALPN list already set on it (it has served
+        # another pool, or the caller configured it): httpcore must set its own
+        kw["ssl_context"].alpn = list(p["ctx_alpn"])
     px = p.get("proxy")
     return kw, px
 
